@@ -184,11 +184,19 @@ func TestHeld(t *testing.T) {
 				k.C.Ops.GateCb, k.C.Ops.GateCbAlways = true, true
 				k.cbHold = true
 			}
+			var sentTags []int // tag of the i-th request
 			send := func(i int) bool {
 				kind := hc.Kinds[rng.Intn(len(hc.Kinds))]
 				tag := i
 				if hc.Groups && i > 1 && rng.Intn(2) == 0 {
 					tag = 1 + rng.Intn(i-1) // share the tag of an earlier request
+				}
+				if hc.Groups && i > hc.N && len(pl.held) > 0 && rng.Intn(2) == 0 {
+					// a late joiner: issued under the tag of a request that is held right now (it must queue behind it)
+					hr := pl.held[rng.Intn(len(pl.held))]
+					if hr >= 1 && hr <= len(sentTags) {
+						tag = sentTags[hr-1]
+					}
 				}
 				if tag > cfg.NT {
 					tag = cfg.NT
@@ -205,6 +213,7 @@ func TestHeld(t *testing.T) {
 					k.Drift = err.Error()
 					return false
 				}
+				sentTags = append(sentTags, tag)
 				k.Steps = append(k.Steps, st)
 				return true
 			}
